@@ -1,6 +1,7 @@
 (* C11 — replication preserves acyclicity.  A mirror of the expansion of coq/Repl (apply_replicate) on graphs with
-   STRUCTURED node identifiers (component, replica index) instead of the textual "name ++ index" (a clash of such a
-   text with the name of another component is therefore outside this model): a replicated component becomes n
+   STRUCTURED node identifiers (component, replica index) instead of the textual "name ++ index" (the textual identifiers and
+   their clashes - replica k of `sample` next to an authored `sample1` - are modelled in Model.expand_ids / accept_repl
+   and proved in Valid/Prim.v): a replicated component becomes n
    copies, copy k consumes copy k of a replicated producer, a component that is not replicated (an aggregator, or
    one outside the replicated region) consumes ALL copies of a replicated producer.  The theorem holds for ANY
    assignment of replica counts, in particular the one propagate_replicate computes. *)
